@@ -5,6 +5,7 @@ package c09
 import (
 	"encoding/json"
 	"fmt"
+	"hash/fnv"
 
 	"github.com/zclconf/go-cty/cty"
 	"github.com/zclconf/go-cty/cty/convert"
@@ -34,7 +35,27 @@ type ures struct {
 	pan   string
 }
 
+// unify calls the library in the requested mode. For half of the type lists
+// (chosen by a hash of the list, so a pure function of the input) the OTHER
+// mode is called first on the same list and its answer discarded: the answer
+// of one mode must not depend on what was asked before, in particular not on
+// the other mode having been asked about the same types.
 func unify(types []cty.Type, unsafe bool) (r ures) {
+	h := fnv.New32a()
+	for _, ty := range types {
+		h.Write([]byte(ty.GoString()))
+		h.Write([]byte{0})
+	}
+	if h.Sum32()&1 == 1 {
+		func() {
+			defer func() { _ = recover() }()
+			if unsafe {
+				convert.Unify(types)
+			} else {
+				convert.UnifyUnsafe(types)
+			}
+		}()
+	}
 	defer func() {
 		if p := recover(); p != nil {
 			r.pan = fmt.Sprint(p)
